@@ -77,11 +77,13 @@ KNOWN_CLASSES = {
 PROPS = {
     "C09": {
         "lean_modules": ["TableauVerif.Props.C09", "TableauVerif.Props.C09Doc", "TableauVerif.Props.C09Incell"],
-        "oracles": ["c09.doc", "c09.known"],
+        "oracles": ["c09.doc", "c09.known", "c14.e2e"],
         "streams": [
             ("e2e.C09.documents", 360, 15000, 8),
             ("corr.importer.xmlToNode", 6000, 200000),
             ("corr.confgen.docParse", 6000, 200000),
+            # separators of document workbooks at every level, incl. field-level sep / subsep of in-cell lists of structs (the YAML twin of e2e.C14)
+            ("e2e.C14", 200, 8000),
         ],
         "assumptions": [
             "modelled: the XML importer's data-document conversion (parseXMLNode, confgen branch): gathering of repeated child elements, attributes as scalar children, text-only elements; names used both for text-only and for structured occurrences under one parent are outside the model (`unmodelled`, counted as drift); the YAML and XML tokenisers (yaml.v3, go-xmldom) are trusted libraries",
@@ -240,7 +242,7 @@ PROPS = {
     },
     "C01": {
         "lean_modules": ["TableauVerif.Props.C01", "TableauVerif.Props.C01List", "TableauVerif.Props.C01Sheet", "TableauVerif.Props.C01Grid", "TableauVerif.Props.C01Csv", "TableauVerif.Props.C09Incell"],
-        "oracles": ["c01.rt", "imp.grid", "c03.parse"],
+        "oracles": ["c01.rt", "imp.grid", "c03.parse", "c10.schema"],
         "streams": [
             ("e2e.C01.roundtrip", 8000, 300000),
             # the scalar layer on arbitrary cell texts: the value stored for a cell is the one its text states
@@ -248,6 +250,9 @@ PROPS = {
             ("corr.confgen.tableParse", 6000, 200000),
             ("corr.importer.grid", 3000, 100000),
             ("corr.importer.csvText", 8000, 400000),
+            # whole sheets through the real importers and both generators, plain and transposed, CSV and XLSX, wider
+            # than the importers' schema window: every field of the sheet is in the schema and in the conf
+            ("e2e.C10.schema", 150, 6000),
         ],
         "assumptions": [
             "the specification of 'what a sheet states' is the Lean writer Spec.C01.write (type-DSL layout rules); generated (schema, message) cases are written by it and converted by the REAL table parser (in-memory rows through the verif hook)",
@@ -257,11 +262,13 @@ PROPS = {
     },
     "C10": {
         "lean_modules": ["TableauVerif.Props.C10"],
-        "oracles": ["tp.pair", "c10.schema"],
+        "oracles": ["tp.pair", "c10.schema", "c12.refer"],
         "streams": [
             ("corr.confgen.layoutPairs", 6000, 200000),
             ("corr.confgen.tableParse", 6000, 200000),
             ("e2e.C10.schema", 200, 8000),
+            # the refer check reads the referred sheet by column name: the column may stand anywhere, also behind blank-named columns
+            ("e2e.C12.refer", 300, 12000),
         ],
         "assumptions": [
             "modelled: the confgen table parser (Parse, parseMessage, all map/list layouts, keyed lists, structs, scalars, presence/range, E0003, CellDebugKV) for int32/uint32/int64/uint64/bool/string; enums, floats, well-known types, unions, refer, default, adjacent-key population are not modelled (not generated)",
